@@ -141,7 +141,7 @@ static Catalogue cat(size_t byte_quick = 600, size_t byte_thorough = 4096)
 }
 
 // prover: role A; verifier: role B.  The verifier role is what every case re-runs on the mutated lines.
-static std::string want_target, want_case, want_part;
+static std::string want_target, want_case, want_part, heavy_mode;
 static bool wanted(const std::string &name)
 {
 	if (!want_target.empty() && name != want_target) return false;
@@ -154,6 +154,10 @@ static void add_protocol(const std::string &name, const std::string &seedname, c
 	const std::string &prefix = "", const Catalogue *cp = NULL)
 {
 	if (!wanted(name))
+		return;
+	// the cut-and-choose verifiers read a stack secret with operator>> in every round (671 MB line buffer per call)
+	bool heavy = name.find("VerifyStackEquality") != std::string::npos && name.find("Groth") == std::string::npos && name.find("Hoogh") == std::string::npos;
+	if ((heavy && heavy_mode == "skip") || (!heavy && heavy_mode == "only"))
 		return;
 	wire::Duplex d;
 	d.sh.wait_limit = 60.0;
@@ -170,8 +174,7 @@ static void add_protocol(const std::string &name, const std::string &seedname, c
 	for (size_t i = 0; i < d.ab.sent.size(); i++) seed += d.ab.sent[i] + "\n";
 	Target t;
 	t.name = name, t.seedname = seedname, t.seed = seed, t.cat = cp ? *cp : cat();
-	// the cut-and-choose verifiers read a stack secret with operator>> in every round (671 MB line buffer per call)
-	t.heavy = name.find("VerifyStackEquality") != std::string::npos && name.find("Groth") == std::string::npos && name.find("Hoogh") == std::string::npos;
+	t.heavy = heavy;
 	t.run = [verifier](const std::string &in) {
 		std::istringstream is(in);
 		std::ostringstream os;
@@ -978,6 +981,7 @@ int main(int argc, char **argv)
 	run.F.prologue = [&cs]() { cs.reset(SEED, 99); mcenv::cur = &cs; mcenv::set_clock(1700000000); };
 	std::string family = A.get("family", "vtmf");
 	size_t n = (size_t)A.geti("n", 3);
+	heavy_mode = run.heavy_mode;
 	want_target = A.get("target", ""), want_case = A.only, want_part = A.get("part", "");   // --part: target name prefix
 	{
 		MuteCerr mute;
